@@ -50,3 +50,14 @@ package encoding
 // Lists always have at least one key in this implementation (the parser requires a key statement).
 //@ func getChildName
 //@   requires node != nil && sn != nil
+
+// Identityref values (C19: "a value the schema's type rejects is never silently altered into an accepted one"): the
+// simple form that replaces a qualified value is the value itself without the "<module of the leaf>:" qualifier -
+// nothing else is cut off.
+//@ func matchIdentityref
+//@   assumed
+//@   nopanic
+//@ func isIdentityrefSimpleFormValid
+//@   requires sn != nil
+//@   ensures implies(result1, val == node_module(sn) + ":" + result0)
+//@   ensures implies(!result1, result0 == "")
